@@ -82,11 +82,18 @@ def qsumsq (x : Nat → Nat → α) (q : Nat → α) (d i : Nat) : α :=
 def gridNodeNumber (sqrt : α → α) (x : Nat → Nat → α) (q : Nat → α) (d N : Nat) : Option Nat :=
   argminFirst ((List.range N).map fun i => sqrt (qsumsq x q d i))
 
+/-- the two masked assignments of `GeoGrid.node_number`, in the order of the source:
+`expr[expr < -1.] = -1.` and then `expr[expr > 1.] = 1.` (the second mask is
+evaluated on the array the first one has already modified) -/
+def clampMask (e : α) : α :=
+  let e1 := if e < -1 then -1 else e
+  if 1 < e1 then 1 else e1
+
 /-- `GeoGrid.node_number` from the node's and the query point's sines / cosines -/
 def geoNodeNumber (arccos : α → α) (sl cl sn cn : Nat → α) (slv clv snv cnv : α) (N : Nat) :
     Option Nat :=
   argminFirst ((List.range N).map fun i =>
-    arccos (clamp (sl i * slv + cl i * clv * (sn i * snv + cn i * cnv))))
+    arccos (clampMask (sl i * slv + cl i * clv * (sn i * snv + cn i * cnv))))
 
 end Kernels
 
@@ -102,7 +109,7 @@ structure Trig (α : Type) where
 
 section Geo
 variable {α : Type} [Add α] [Mul α] [Sub α] [Neg α] [Div α] [OfNat α 0] [OfNat α 1]
-  [LT α] [DecidableLT α]
+  [LT α] [DecidableLT α] [DecidableEq α]
 
 /-- `GeoGrid.angular_distance`: `arccos` of the kernel's cosine matrix built from
 `cos_lat() … sin_lon()` -/
@@ -147,6 +154,62 @@ def outAWC (T : Trig α) (lat : Nat → α) (A : Nat → Nat → α) (N i : Nat)
 /-- `area_weighted_connectivity` -/
 def AWC (T : Trig α) (directed : Bool) (lat : Nat → α) (A : Nat → Nat → α) (N i : Nat) : α :=
   if directed then inAWC T lat A N i + outAWC T lat A N i else inAWC T lat A N i
+
+/-! ### `GeoGrid.convert_lon_coordinates` -/
+
+/-- one step of the loop: `lon - 360.` if `lon > 180.` else `lon` -/
+def convertLon1 [OfNat α 180] [OfNat α 360] (l : α) : α := if 180 < l then l - 360 else l
+
+/-- `GeoGrid.convert_lon_coordinates(lon_seq)`: `new = np.empty(self.N)`, then
+`for i in range(self.N)` the element `lon_seq[i]` is read — an `IndexError` (`none`)
+if the sequence is shorter than the grid; surplus elements are ignored -/
+def convertLon [OfNat α 180] [OfNat α 360] (N : Nat) (lon : List α) : Option (List α) :=
+  if lon.length < N then none else some ((lon.take N).map convertLon1)
+
+/-! ### link distance measures (`SpatialNetwork`) -/
+
+/-- `ndarray.max()` of a row: `none` models numpy's `ValueError` on a zero-size array -/
+def maxRow : List α → Option α
+  | [] => none
+  | x :: xs => some (xs.foldl (fun m y => if m < y then y else m) x)
+
+/-- `max_link_distance`: `(D * A).max(axis=1)` -/
+def maxLinkDist (D A : Nat → Nat → α) (N i : Nat) : Option α :=
+  maxRow ((List.range N).map fun j => D i j * A i j)
+
+/-- `_calculate_general_average_link_distance(adjacency, degree, geometry_corrected)`, entry
+`i`: `(D * adjacency).sum(axis=1) / degree` where `degree != 0`, else `0`; with
+`geometry_corrected` divided by `D.mean(axis=1)` (`nN` is `N` as a number).  `none`
+stands for a division by a zero mean (numpy: `nan` / `inf` and a RuntimeWarning). -/
+def genALD (D A : Nat → Nat → α) (deg : Nat → α) (N : Nat) (nN : α) (corrected : Bool) (i : Nat) :
+    Option α :=
+  let ald := if deg i = 0 then 0 else sumTo N (fun j => D i j * A i j) / deg i
+  if corrected then
+    let mean := sumTo N (fun j => D i j) / nN
+    if mean = 0 then none else some (ald / mean)
+  else some ald
+
+/-- `outaverage_link_distance`: `A = adjacency`, `degree = outdegree()` -/
+def outALD (D A : Nat → Nat → α) (N : Nat) (nN : α) (corrected : Bool) (i : Nat) : Option α :=
+  genALD D A (fun i => sumTo N (fun j => A i j)) N nN corrected i
+
+/-- `inaverage_link_distance`: `A = adjacency.T`, `degree = indegree()` -/
+def inALD (D A : Nat → Nat → α) (N : Nat) (nN : α) (corrected : Bool) (i : Nat) : Option α :=
+  genALD D (fun a b => A b a) (fun i => sumTo N (fun j => A j i)) N nN corrected i
+
+/-- `Network.undirected_adjacency`: `sp_A.maximum(sp_A.T)` -/
+def undirAdj (A : Nat → Nat → α) (i j : Nat) : α := if A i j < A j i then A j i else A i j
+
+/-- `max_link_distance` of a network with adjacency `A`: `A = undirected_adjacency()` -/
+def maxLinkDistNet (D A : Nat → Nat → α) (N i : Nat) : Option α := maxLinkDist D (undirAdj A) N i
+
+/-- `average_link_distance`: `A = undirected_adjacency()`, `degree = degree()` which is
+`indegree() + outdegree()` for a directed network and `outdegree()` otherwise -/
+def avgALD (directed : Bool) (D A : Nat → Nat → α) (N : Nat) (nN : α) (corrected : Bool) (i : Nat) :
+    Option α :=
+  genALD D (undirAdj A)
+    (fun i => if directed then sumTo N (fun j => A j i) + sumTo N (fun j => A i j)
+              else sumTo N (fun j => A i j)) N nN corrected i
 
 end Geo
 
